@@ -32,7 +32,7 @@ func init() {
 func runC19(c *Ctx) {
 	c.L.Trust("go/types + go/ssa", "json.Encoder.Encode writes exactly one newline-terminated JSON value", "slog.TextHandler output ends with a newline")
 	c.L.Floor("C19.json-shape", 3)
-	c.L.Floor("C19.one-encode", 2)
+	c.L.Floor("C19.one-encode", 3)
 	c.L.Floor("C19.encode-locked", 1)
 	c.L.Floor("C19.shared-lock", 3)
 	c.L.Floor("C19.attrs-isolated", 1)
@@ -121,6 +121,50 @@ func runC19(c *Ctx) {
 				}
 			}
 			c.check(mx == 0 && nonNil, "C19.one-encode", h, "a path without Encode returns a non-nil error", ret, "a record is either written once or reported as an error")
+			// ... and the only thing that may fail before the line is written
+			// is the rendering itself: the return lies behind the text handler's
+			// Handle, under its error.  (An early exit on a done context, a
+			// level re-check, a rate limit drop records: slog discards the
+			// error a handler returns.)
+			var textCalls []*ssa.Call
+			isText := func(in ssa.Instruction) bool {
+				call, ok := in.(*ssa.Call)
+				return ok && strings.HasSuffix(core.CalleeName(&call.Call), "log/slog.TextHandler).Handle")
+			}
+			core.EachInstr(h, func(in ssa.Instruction) {
+				if isText(in) {
+					textCalls = append(textCalls, in.(*ssa.Call))
+				}
+			})
+			tmn, _, tok := core.CountOnPaths(h, nil, ret, isText)
+			underErr := false
+			for _, tc := range textCalls {
+				if factNonNil(core.Facts(h).At(ret.Block()), tc) {
+					underErr = true
+				}
+			}
+			if !underErr {
+				// the error may have travelled through a helper's result (a phi of
+				// the text handler's error and nil) or a wrapper before it is tested
+				for _, g := range core.Facts(h).At(ret.Block()) {
+					cond, truth := core.StripNot(g.Cond, g.Truth)
+					bo, isBo := cond.(*ssa.BinOp)
+					if !isBo || (bo.Op != token.NEQ && bo.Op != token.EQL) || (bo.Op == token.NEQ) != truth {
+						continue
+					}
+					x := bo.X
+					if core.IsNilConst(x) {
+						x = bo.Y
+					} else if !core.IsNilConst(bo.Y) {
+						continue
+					}
+					if onlyFromTextErr(x, textCalls, 0) {
+						underErr = true
+					}
+				}
+			}
+			c.check(tok && tmn >= 1 && underErr, "C19.one-encode", h, "a record is given up only when its rendering failed", ret,
+				"every handled record produces one line: the only return without an Encode is the one under the text handler's error")
 		} else {
 			c.check(mn == 1 && mx == 1, "C19.one-encode", h, "exactly one Encode on the success path", ret, sprintf("Encode calls: min %d max %d", mn, mx))
 		}
@@ -1040,4 +1084,62 @@ func c19TextOptions(c *Ctx) {
 	if n == 0 {
 		c.undecided("C19.text-options", ctor, "construction of the pooled text handlers", nil, "no call of newBufferedTextHandler / slog.NewTextHandler found")
 	}
+}
+
+
+// onlyFromTextErr: every non-nil value that may arrive at v is the error of
+// one of the text handler calls, possibly wrapped by fmt.Errorf or the module's
+// errors.Annotate.
+func onlyFromTextErr(v ssa.Value, textCalls []*ssa.Call, depth int) bool {
+	if depth > 8 {
+		return false
+	}
+	v = core.LoadSource(core.Unwrap(v))
+	if core.IsNilConst(v) {
+		return true
+	}
+	for _, tc := range textCalls {
+		if v == ssa.Value(tc) {
+			return true
+		}
+	}
+	switch x := v.(type) {
+	case *ssa.Phi:
+		for _, e := range x.Edges {
+			if !onlyFromTextErr(e, textCalls, depth+1) {
+				return false
+			}
+		}
+		return true
+	case *ssa.Call:
+		n := core.CalleeName(&x.Call)
+		if n == "fmt.Errorf" && len(x.Call.Args) == 2 {
+			for _, tc := range textCalls {
+				if variadicHas(x.Call.Args[1], tc) {
+					return true
+				}
+			}
+			// the wrapped value may itself be a phi / re-load
+			if sl, ok := x.Call.Args[1].(*ssa.Slice); ok {
+				if al, ok := sl.X.(*ssa.Alloc); ok {
+					for _, r := range core.Refs(al) {
+						if ia, ok := r.(*ssa.IndexAddr); ok {
+							for _, rr := range core.Refs(ia) {
+								if st, ok := rr.(*ssa.Store); ok {
+									if _, isErr := core.Unwrap(st.Val).Type().Underlying().(*types.Interface); isErr && onlyFromTextErr(st.Val, textCalls, depth+1) {
+										return true
+									}
+								}
+							}
+						}
+					}
+				}
+			}
+			return false
+		}
+		if strings.HasSuffix(n, "golibs/errors.Annotate") && len(x.Call.Args) > 0 {
+			return onlyFromTextErr(x.Call.Args[0], textCalls, depth+1)
+		}
+	}
+	return false
 }
